@@ -42,11 +42,11 @@ for d in sorted(glob.glob(os.path.join(outroot, "C*", "m*"))):
     meta["confirmed"] = ok
     readme = open(os.path.join(d, "README.md")).read() if os.path.exists(os.path.join(d, "README.md")) else ""
     meta["needs_to_manifest"] = readme[:1500]
-    meta["ran"] = ["git apply patch.diff in a scratch worktree of the pinned commit", "go build ./...", "go test -vet=off -count=1 -v ./... (sorted PASS/FAIL list compared with the unchanged tree's)",
+    meta["ran"] = ["git apply patch.diff in a scratch worktree of /repo at " + subprocess.run(["git", "-C", wt, "log", "--format=%h", "-1"], capture_output=True, text=True).stdout.strip(), "go build ./...", "go test -vet=off -count=1 -v ./... (sorted PASS/FAIL list compared with the unchanged tree's)",
                    "demo.sh <worktree> with the change (must fail)", "demo.sh <worktree> after git checkout -- . (must pass)"]
     print(pid, name, "confirmed" if ok else "NOT CONFIRMED", {k: meta[k] for k in ("applies", "compiles", "suite_same_as_baseline", "demo_fails_with_change", "demo_passes_without_change")}, flush=True)
     if ok:
-        dst = os.path.join("/verif/seeded", "%s-%s" % (pid, name))
+        dst = os.path.join("/verif/seeded", "%s-%s%s" % (pid, os.environ.get("SEED_PREFIX", ""), name))
         os.makedirs(dst, exist_ok=True)
         shutil.copy(patch, os.path.join(dst, "patch.diff")); shutil.copy(demo, os.path.join(dst, "demo.sh"))
         if readme:
